@@ -132,13 +132,28 @@ def build(cfg, outdir, kind="asan"):
 ENV = {"ASAN_OPTIONS": "detect_leaks=0:abort_on_error=0:detect_stack_use_after_return=0:allocator_may_return_null=1",
        "UBSAN_OPTIONS": "print_stacktrace=0:halt_on_error=0"}
 
+# Non-termination.  The driver re-arms a watchdog before every library call (WD_CPU seconds of CPU time, 6 x that of wall clock;
+# expiry = FAULT sig=14).  A library call killed by it is a violation of its own (key <function>:fault-sig14), recorded here
+# whatever the caller of drive() does with the dead line.  Every such death costs WD_CPU seconds, so the whole check has a budget
+# of them: after HANG_BUDGET deaths the check stops driving (HangStop) and ends with the verdict it has - in bounded time.
+WD_CPU = [60]; HANG_BUDGET = [24]
+HANGS = {}; _hang_n = [0]; _hang_lock = threading.Lock()
+OP_FN = {"add": "ec_point_add", "sub": "ec_point_sub", "dbl": "ec_point_add", "dbln": "ec_point_dbl_n", "mul": "ec_point_unknown_pt_mult",
+         "mulbp": "ec_point_mult_bp", "twinbp": "ec_point_twin_mult_bp", "twin": "ec_point_twin_mult", "ladder": "ec_point_add",
+         "validate": "ec_curve_validate", "chk": "ec_point_check_affine", "curve": "ecdsa_curve_from_str"}
+class HangStop(Exception):
+    pass
+def set_tier(ctx):
+    WD_CPU[0], HANG_BUDGET[0] = (20, 6) if ctx.quick else (60, 24)
+
 def drive(exe, lines, timeout=900, max_crashes=6):
     """run the driver over `lines`; returns (answers parallel to lines, stderr text).  An answer is the list of
     result tokens, or {'crash': key, 'raw': text} for the line the process died on; lines after the
     max_crashes-th crash are returned as None (not run)."""
     res = [None] * len(lines); err_all = []; i = 0; crashes = 0
-    e = dict(os.environ); e.update(ENV)
+    e = dict(os.environ); e.update(ENV); e["EC_DRV_WD_CPU"] = str(WD_CPU[0])
     while i < len(lines):
+        if _hang_n[0] >= HANG_BUDGET[0]: raise HangStop()
         data = ("\n".join(lines[i:]) + "\n").encode()
         try:
             p = subprocess.run([exe], input=data, stdout=subprocess.PIPE, stderr=subprocess.PIPE, timeout=timeout, env=e)
@@ -168,6 +183,12 @@ def drive(exe, lines, timeout=900, max_crashes=6):
             (("timeout", "", "", "driver timeout") if rc in (124, 99) and "sig=14" in out + err or rc == 124
              else ("exit-%s" % rc, "", "", (out[-200:] + err[-300:])))
         res[i + k] = {"crash": key, "raw": (out[-600:] + "\n" + err[-2500:])}
+        if key[0] in ("timeout", "fault-sig14"):
+            op = lines[i + k].split(" ", 1)[0]
+            with _hang_lock:
+                _hang_n[0] += 1
+                HANGS.setdefault("%s:%s" % (OP_FN.get(op, op), "fault-sig14" if key[0] == "fault-sig14" else "timeout"), []).append(
+                    (os.path.basename(exe), lines[i + k][:600], (out[-300:] + "\n" + err[-600:])))
         i = i + k + 1; crashes += 1
         if crashes >= max_crashes: break
     return res, "\n".join(err_all)
@@ -876,6 +897,19 @@ def quick_configs(rng):
 
 # ------------------------------------------------------------------ main
 def run(ctx):
+    set_tier(ctx)
+    try:
+        run_body(ctx)
+    except HangStop:
+        ctx.log("stopped driving: %d library calls did not return within %d s of CPU time (budget of the %s tier)" % (_hang_n[0], WD_CPU[0], ctx.tier))
+        ctx.add(stopped_after_watchdog_deaths=_hang_n[0])
+    finally:
+        for key, occ in sorted(HANGS.items()):
+            ctx.fail(key, "%d call(s) killed by the driver's watchdog (%d s of CPU time; the slowest row of the unchanged tree needs 0.2 s); first:\n%s"
+                     % (len(occ), WD_CPU[0], "\n---\n".join("build %s\ncase %s\n%s" % o for o in occ[:3])),
+                     [{"build": o[0], "line": o[1]} for o in occ[:3]])
+
+def run_body(ctx):
     ctx.level = "exploration"
     rng = random.Random(ctx.seed)
     d = common.scratch("lcbv-c02-")
